@@ -89,8 +89,14 @@ def _task_a(task):
                 # besides the canonical value also CK_BBOOL values other than 0/1 where the new value is "true" (a guard that compares with CK_TRUE must not let them pass)
                 for newv in [different(t, cur)] + ([b"\x02", b"\xff"] if (t in BOOL_ATTRS and different(t, cur) is True) else []):
                     an = C.CKA_NAMES.get(t, hex(t))
-                    for shape in ("alone", "after-label"):
-                        T = ([(C.CKA_LABEL, b"subject")] if shape == "after-label" else []) + [(t, newv)]
+                    for shape in ("alone", "after-label", "after-the-same-attribute-with-its-current-value"):
+                        if shape.startswith("after-the-same"):
+                            # the allowed (current) value first, the forbidden one last: whoever applies entries in order ends up with the last
+                            if not isinstance(cur, (bool, int, bytes)) or t in (C.CKA_ALLOWED_MECHANISMS,):
+                                continue
+                            T = [(t, cur), (t, newv)]
+                        else:
+                            T = ([(C.CKA_LABEL, b"subject")] if shape == "after-label" else []) + [(t, newv)]
                         # --- C_SetAttributeValue
                         d0 = sh.depth
                         sh.snap()
@@ -458,6 +464,20 @@ def _task_hist(task):
                                     V("C08|%s|history-attribute-accepted|%s" % (opn, C.CKA_NAMES[ha]), {"value": val, "position": posn})
                             finally:
                                 sh.unwind(d0)
+            # CKA_TRUSTED = true supplied by the normal user to EVERY creating operation (first / last position, canonical and non-canonical true)
+            for opn, (fmt, T) in bases.items():
+                for tv_ in (True, b"\x02"):
+                    for posn, pos in (("first", 0), ("last", len(T))):
+                        d0 = sh.depth
+                        sh.snap(copy=False)
+                        try:
+                            r = p.call(fmt % tpl(T[:pos] + [(C.CKA_TRUSTED, tv_)] + T[pos:]))
+                            ctx.count("trusted_creator_cases")
+                            hh = r.get("hpriv") if opn == "generate-pair-priv" else (r.get("hpub") if opn == "generate-pair-pub" else r.get("h"))
+                            if r["rv"] == 0 and hh and _read(p, s, hh, [C.CKA_TRUSTED]).get(C.CKA_TRUSTED) is True:
+                                V("C08|%s|CKA_TRUSTED-set-true-by-normal-user|template-entry-%s" % (opn, posn), {"value": repr(tv_)})
+                        finally:
+                            sh.unwind(d0)
             # template-length ladder: the history and protection attributes of the new key must not depend on how many (harmless) entries the caller's
             # template has - the creating functions copy the template into internal arrays of fixed capacity and append their own entries
             f1 = [(C.CKA_ID, b"id"), (C.CKA_ENCRYPT, True), (C.CKA_DECRYPT, True), (C.CKA_SIGN, True), (C.CKA_VERIFY, True), (C.CKA_WRAP, False), (C.CKA_UNWRAP, False),
